@@ -59,7 +59,8 @@ def parseObs : SExp → Option Obs
 /-- The known-finding class an input belongs to, chosen by the conjunct of Spec that failed.
     Judged with the model of the code as it is (`codeCfg`): only the classes of the findings that are still
     open are named; a failure in a repaired class (stop of an unreaped child, full channel, KILL of an inactive
-    task, crashing launches, KILL before the TASK_RUNNING timer) has no excuse and is a plain violation. -/
+    task, crashing launches, KILL before the TASK_RUNNING timer) has no excuse and is a plain violation; so is a
+    survivor of a launch the executor gave up (`giveupTerminates`: true of the code as it is for every group). -/
 def hypOf (k : Kind) (b : Beh) (ops : List Op) (o : Obs) : String :=
   let nv (P : St → Op → Bool) : Bool := !never codeCfg P k b ops      -- the schedule meets the class
   if !noStuck o.res then
